@@ -531,6 +531,54 @@ def _desugar_reduce(stmts):
     return out
 
 
+def _desugar_next_find(stmts):
+    """x = next((ELT for T in IT if C), None); if x is not None: BODY      (x not used elsewhere, BODY without break/continue/return of its own loop)
+         ->   for T in IT: if C: x = ELT; BODY; break
+    and the plain form   x = next((ELT for T in IT if C), D)   ->   x = D; for T in IT: if C: x = ELT; break"""
+    out = []
+    i = 0
+    while i < len(stmts):
+        s = stmts[i]
+        for fld in ("body", "orelse", "finalbody"):
+            if isinstance(getattr(s, fld, None), list) and not isinstance(s, (ast.FunctionDef, ast.ClassDef)):
+                setattr(s, fld, _desugar_next_find(getattr(s, fld)))
+        for hnd in getattr(s, "handlers", []) or []:
+            hnd.body = _desugar_next_find(hnd.body)
+        v = s.value if isinstance(s, ast.Assign) and len(s.targets) == 1 and isinstance(s.targets[0], ast.Name) else None
+        if isinstance(v, ast.Call) and isinstance(v.func, ast.Name) and v.func.id == "next" and len(v.args) == 2 and not v.keywords \
+                and isinstance(v.args[0], ast.GeneratorExp) and len(v.args[0].generators) == 1 and not _has(v.args[0], (ast.NamedExpr, ast.Lambda)) \
+                and isinstance(v.args[1], ast.Constant):
+            gen, dflt = v.args[0], v.args[1]
+            g0 = gen.generators[0]
+            x = s.targets[0].id
+            nxt = stmts[i + 1] if i + 1 < len(stmts) else None
+            used_later = any(isinstance(n, ast.Name) and n.id == x for st in stmts[i + 2:] for n in ast.walk(st))
+            bound = {n.id for n in ast.walk(g0.target) if isinstance(n, ast.Name)}
+            clash = any(isinstance(n, ast.Name) and n.id in bound for st in stmts[i + 1:] for n in ast.walk(st))
+            assign = ast.copy_location(ast.Assign(targets=[ast.Name(id=x, ctx=ast.Store())], value=gen.elt), s)
+            if not clash and dflt.value is None and isinstance(nxt, ast.If) and not nxt.orelse and not used_later \
+                    and isinstance(nxt.test, ast.Compare) and len(nxt.test.ops) == 1 and isinstance(nxt.test.ops[0], ast.IsNot) \
+                    and isinstance(nxt.test.left, ast.Name) and nxt.test.left.id == x and isinstance(nxt.test.comparators[0], ast.Constant) and nxt.test.comparators[0].value is None \
+                    and not _has(ast.Module(body=nxt.body, type_ignores=[]), (ast.Break, ast.Continue)):
+                inner = [assign] + list(nxt.body) + [ast.copy_location(ast.Break(), s)]
+                for cond in reversed(g0.ifs):
+                    inner = [ast.copy_location(ast.If(test=cond, body=inner, orelse=[]), s)]
+                out.append(ast.copy_location(ast.For(target=g0.target, iter=g0.iter, body=inner, orelse=[]), s))
+                i += 2
+                continue
+            if not clash:
+                inner = [assign, ast.copy_location(ast.Break(), s)]
+                for cond in reversed(g0.ifs):
+                    inner = [ast.copy_location(ast.If(test=cond, body=inner, orelse=[]), s)]
+                out.append(ast.copy_location(ast.Assign(targets=[ast.Name(id=x, ctx=ast.Store())], value=dflt), s))
+                out.append(ast.copy_location(ast.For(target=g0.target, iter=g0.iter, body=inner, orelse=[]), s))
+                i += 1
+                continue
+        out.append(s)
+        i += 1
+    return out
+
+
 def _dispatch_table(mod, name):
     """module-level NAME = {KEY: lambda ...: expr | function name, ...} bound once -> [(key expr, callable expr)]"""
     sts = mod.assigns.get(name, [])
@@ -946,6 +994,7 @@ def canonical_function(mod, fn, depth=3):
     before = ast.dump(new)
     new.body = _desugar_comprehension_loops(new.body)
     new.body = _desugar_any_all(new.body)
+    new.body = _desugar_next_find(new.body)
     new.body = _split_ifexp_calls(new.body)
     new = _propagate_option_flags(new)
     local_names = _assigned_names(new)
